@@ -73,22 +73,8 @@ def fresh_local_objects(f):
     return out
 
 
-def run(ctx):
-    db = ctx.db()
-    rep = ctx.report
-    rep.explanation = (
-        "Lock and publication discipline decided over the CFGs: must-hold analysis of the global mutex at every access to the "
-        "code-memory allocator's shared state (with requires-lock summaries for static helpers all of whose callers hold it); "
-        "lock/unlock pairing on every path of every function that takes a mutex, including the documented asymmetric protocol of "
-        "orc_once_enter/orc_once_leave; order of value store / release store / unlock and of acquire load / value load in the once "
-        "protocol (C11-atomics branch selected by this build); who-may-write for process-wide registries against the call graph "
-        "reachable from the compile and run entry points (indirect calls resolved through function-pointer slots); atomicity of "
-        "locations read outside and written inside a mutex. Absence of all races and correctness of concurrent results are NOT decided.")
-    rep.assumptions += ["the C11 atomics branch of orconce.h is the one compiled (checked: AtomicExpr present)",
-                        "objects freshly allocated in a function and not yet linked into shared structures need no lock",
-                        "function-static once flags (`static int inited; if (inited) return; inited = 1;`) in functions that are also run from orc_init are initialisation, not compile-path writes"]
-    cg = CallGraph(db)
-
+def d1(db, rep, rule="D1-R-LOCK"):
+    """allocator state (region table, chunk lists) is touched only with the global mutex held."""
     # ---- D1 -------------------------------------------------------------------
     cm = db.tu("orccodemem")
     n1 = 0
@@ -113,7 +99,7 @@ def run(ctx):
             if not req:
                 bad.append((n, key))
         n1 += 1
-        rep.check(not bad, "D1-R-LOCK", where(f), "allocator-state",
+        rep.check(not bad, rule, where(f), "allocator-state",
                   "%d accesses to shared allocator state, all with the global mutex held (%s)" %
                   (len(acc), "requires-lock: every caller holds it" if req else "locked in this function"),
                   "access to %s without the global mutex (neither taken here nor held by every caller)" %
@@ -123,8 +109,28 @@ def run(ctx):
         if f.tu.base.startswith("orccodemem"):
             continue
         for n, key in accesses_of(f):
-            rep.violation("D1-R-LOCK", where(f), key, "allocator state accessed outside orccodemem.c", line=n.line)
-    rep.floor("D1-R-LOCK", 6)
+            rep.violation(rule, where(f), key, "allocator state accessed outside orccodemem.c", line=n.line)
+    rep.floor(rule, 6)
+
+
+
+def run(ctx):
+    db = ctx.db()
+    rep = ctx.report
+    rep.explanation = (
+        "Lock and publication discipline decided over the CFGs: must-hold analysis of the global mutex at every access to the "
+        "code-memory allocator's shared state (with requires-lock summaries for static helpers all of whose callers hold it); "
+        "lock/unlock pairing on every path of every function that takes a mutex, including the documented asymmetric protocol of "
+        "orc_once_enter/orc_once_leave; order of value store / release store / unlock and of acquire load / value load in the once "
+        "protocol (C11-atomics branch selected by this build); who-may-write for process-wide registries against the call graph "
+        "reachable from the compile and run entry points (indirect calls resolved through function-pointer slots); atomicity of "
+        "locations read outside and written inside a mutex. Absence of all races and correctness of concurrent results are NOT decided.")
+    rep.assumptions += ["the C11 atomics branch of orconce.h is the one compiled (checked: AtomicExpr present)",
+                        "objects freshly allocated in a function and not yet linked into shared structures need no lock",
+                        "function-static once flags (`static int inited; if (inited) return; inited = 1;`) in functions that are also run from orc_init are initialisation, not compile-path writes"]
+    cg = CallGraph(db)
+
+    d1(db, rep)
 
     # ---- D2 -------------------------------------------------------------------
     n2 = 0
